@@ -273,12 +273,12 @@ def m_atomic_fetch_add(c, p, v, order):
 
 
 # ----------------------------------------------------------------------------- locks (single-threaded semantics)
-@model(r'^(?:parking_lot::|lock_api::)?(?:lock_api::)?(?:Mutex|RwLock)::<.*>::(new)$|^(?:std::sync::)?(?:Mutex|RwLock)::<.*>::new$')
+@model(r'^(?:\w+::)*(?:Mutex|RwLock)::<.*>::new$')
 def m_lock_new(c, v):
     return Agg([v], 'Lock')
 
 
-@model(r'^(?:parking_lot::|lock_api::)?(?:lock_api::)?(?:Mutex|RwLock)::<.*>::(lock|read|write)$')
+@model(r'^(?:\w+::)*(?:Mutex|RwLock)::<.*>::(lock|read|write)$')
 def m_lock_lock(c, p):
     ip = c.ip
     held = ip.env.setdefault('locks_held', [])
@@ -286,7 +286,7 @@ def m_lock_lock(c, p):
     return Agg([Ptr(p.cell, p.path + (('f', 0),))], 'Guard')
 
 
-@model(r'^<(?:parking_lot::|lock_api::)?(?:lock_api::)?(?:MutexGuard|RwLockReadGuard|RwLockWriteGuard)<.*> as (?:std::ops::)?(?:Deref|DerefMut)>::(deref|deref_mut)$')
+@model(r'^<(?:\w+::)*(?:MutexGuard|RwLockReadGuard|RwLockWriteGuard)<.*> as (?:std::ops::)?(?:Deref|DerefMut)>::(deref|deref_mut)$')
 def m_guard_deref(c, g):
     return deref(c.ip, g).fields[0] if isinstance(g, Ptr) else g.fields[0]
 
@@ -312,3 +312,65 @@ def m_lazy_deref(c, p):
     if lz.fields[0] is None:
         lz.fields[0] = ip.call_value(lz.fields[1], [])
     return Ptr(p.cell, p.path + (('f', 0),))
+
+
+# ----------------------------------------------------------------------------- tokio::sync::mpsc (bounded)
+class ChanV:
+    """Bounded mpsc channel as seen from the sender: remaining capacity, closed flag, items accepted."""
+
+    def __init__(self, capacity, closed, name='chan'):
+        self.capacity = capacity      # BV64 (symbolic ok)
+        self.closed = closed          # BV1
+        self.sent = []
+        self.name = name
+        self.awaited = False
+
+    def __repr__(self):
+        return "Chan(%s sent=%d)" % (self.name, len(self.sent))
+
+
+def chan_of(ip, p):
+    v = deref(ip, p)
+    if not isinstance(v, ChanV):
+        raise Inconclusive("expected channel sender, got %r" % (v,))
+    return v
+
+
+@model(r'^(?:tokio::sync::mpsc::)?(?:bounded::)?Sender::<.*>::(capacity)$')
+def m_sender_capacity(c, p):
+    return chan_of(c.ip, p).capacity
+
+
+@model(r'^(?:tokio::sync::mpsc::)?(?:bounded::)?Sender::<.*>::(is_closed)$')
+def m_sender_is_closed(c, p):
+    return chan_of(c.ip, p).closed
+
+
+@model(r'^(?:tokio::sync::mpsc::)?(?:bounded::)?Sender::<.*>::(try_send)$')
+def m_sender_try_send(c, p, v):
+    """tokio contract: Err(Closed) if the receiver is gone, Err(Full) if no capacity, else the value is queued."""
+    ip = c.ip
+    ch = chan_of(ip, p)
+    if ip.branch(ch.closed, 'chan_closed'):
+        return EnumV(BV(64, 1), {'Err': [EnumV(BV(64, 1), {'Closed': [v]}, 'TrySendError')]}, 'Result')
+    cap = ch.capacity
+    if ip.branch((cap.v == 0) if not cap.concrete else (cap.v == 0), 'chan_full'):
+        return EnumV(BV(64, 1), {'Err': [EnumV(BV(64, 0), {'Full': [v]}, 'TrySendError')]}, 'Result')
+    ch.sent.append(v)
+    ch.capacity = ip.binop('Sub', cap, BV(64, 1), False, 'try_send')
+    return ok(ip, unit())
+
+
+@model(r'^(?:tokio::sync::mpsc::)?(?:bounded::)?Sender::<.*>::(send|reserve|send_timeout|closed)$')
+def m_sender_send_async(c, p, *a):
+    """Any awaiting send on the channel: recorded (a mirror that is slow or hung would block the caller)."""
+    ch = chan_of(c.ip, p)
+    ch.awaited = True
+    c.ip.env.setdefault('awaited_channels', []).append(ch.name)
+    return Opaque('IoFuture', 'chan_send', (p, a[0] if a else None))
+
+
+@model(r'^(?:bytes::)?Bytes::(clone|from|copy_from_slice)$|^<(?:bytes::)?Bytes as Clone>::clone$')
+def m_bytes_clone(c, p):
+    v = deref(c.ip, p) if isinstance(p, Ptr) else p
+    return v
